@@ -157,6 +157,7 @@ def r4(p, rep):
         assigns = [n for n in walk_no_nested(f.node) if isinstance(n, ast.Assign) and any(isinstance(t, ast.Name) and t.id == var for t in n.targets) and isinstance(n.value, ast.Call) and isinstance(n.value.func, ast.Name) and n.value.func.id == "broadcast" and n.value.args and norm(n.value.args[0]) == var]
         nodes = [cfg.node_for(a) for a in assigns]
         skip = cfg.can_reach(edges[0], opnode, avoid=nodes) if nodes else True
+        common.thorough_paths(rep, f"C14.R4:{var}", cfg, edges[0], opnode, nodes, dominator_verdict=not skip)
         rep.add(
             "C14.R4",
             f"{f.qualname}:broadcast({var})",
